@@ -548,3 +548,77 @@ func (b *builder) svcbLine(https bool, name string, wild bool, loc string) {
 	text := prefix + strings.Join([]string{b.owner(name, wild), tf, ttlF, b.locField(loc), fmt.Sprint(prio), params}, ",")
 	b.add(text, model.Rec{Owner: name, Wild: wild, Loc: loc, Type: typ, TTL: ttl, Rdata: rd, Target: map[bool]string{true: name, false: ""}[https]})
 }
+
+// AddrLineExact emits a '+' line with the given weight and TTL fields always explicit.
+func (b *builder) addrLineExact(name string, wild bool, loc string, ip net.IP, ttl uint32, weight uint32) {
+	f := []string{b.owner(name, wild), ip.String(), fmt.Sprint(ttl), "", b.locField(loc), fmt.Sprint(weight)}
+	b.add(b.join("+", f...), addrRec(name, wild, loc, ttl, ip, weight))
+}
+
+// WeightedName describes one name of a C11 world.
+type WeightedName struct {
+	Name string
+	Wild bool // declared as *.Name; queried as a.<Name>
+}
+
+// GenWeighted builds a data file whose names carry hostile weighted address sets,
+// plus an NS delegation and an MX whose targets have several weighted addresses.
+func GenWeighted(rng *rand.Rand) (*World, []WeightedName) {
+	w := &World{Maps: model.NewMaps(), Locs: []string{"aa", "bb"}, Zones: []string{"example.com"}}
+	b := &builder{rng: rng, w: w}
+	b.nsLine(true, "example.com", "", "ns1.example.com", net.ParseIP("192.0.2.1"))
+	addSubnet(b, "\x00\x00", "aa", "10.1.0.0/16")
+	addSubnet(b, "\x00\x00", "bb", "10.2.0.0/16")
+	weights := []uint32{0, 1, 1, 2, 3, 7, 10, 100, 4294967295}
+	var names []WeightedName
+	ipn := 0
+	nextIP := func(v6 bool) net.IP {
+		ipn++
+		if v6 {
+			ip := net.ParseIP("2001:db8::")
+			ip[14], ip[15] = byte(ipn>>8), byte(ipn)
+			return ip
+		}
+		return net.IPv4(192, 0, byte(2+ipn>>8), byte(ipn))
+	}
+	fill := func(name string, wild bool) {
+		k := 1 + rng.Intn(8)
+		shape := rng.Intn(6)
+		for i := 0; i < k; i++ {
+			wt := weights[rng.Intn(len(weights))]
+			switch shape {
+			case 0:
+				wt = 0 // all zero
+			case 1:
+				wt = 1 // uniform
+			case 2:
+				wt = uint32(1 + i) // ratios
+			}
+			loc := ""
+			switch rng.Intn(5) {
+			case 0:
+				loc = "aa"
+			case 1:
+				loc = "bb"
+			}
+			b.addrLineExact(name, wild, loc, nextIP(rng.Intn(3) == 0), uint32(60+rng.Intn(1000)), wt)
+		}
+	}
+	for i := 0; i < 10; i++ {
+		n := fmt.Sprintf("w%d.example.com", i)
+		wild := i%4 == 3
+		fill(n, wild)
+		names = append(names, WeightedName{Name: n, Wild: wild})
+	}
+	// delegation and MX with multi-address targets
+	b.nsLine(false, "deleg.example.com", "", "nsd.example.com", nil)
+	fill("nsd.example.com", false)
+	b.nsLine(false, "deleg.example.com", "", "nse.example.com", nil)
+	fill("nse.example.com", false)
+	b.mxLine("mxn.example.com", "", "mail.example.com", nil)
+	fill("mail.example.com", false)
+	for _, r := range w.Recs {
+		w.Owners = append(w.Owners, r.Owner)
+	}
+	return w, names
+}
